@@ -33,6 +33,7 @@ type ShapeOpts struct {
 	MaxConcurrency int
 	MaxPerTick     int
 	Limit          string // "none" | "maybe" | "always": max-iterations
+	StageMs        [2]int // staged / file stage durations in ms (default 40-250 and 100-250)
 	MaxLimit       int
 }
 
@@ -83,7 +84,11 @@ func GenShape(t *rapid.T, o ShapeOpts) Shape {
 		parts := []string{fmt.Sprintf("0s:%d", rapid.IntRange(0, per).Draw(t, "target0"))}
 		var own time.Duration
 		for i := 0; i < n; i++ {
-			d := rapid.IntRange(40, 250).Draw(t, fmt.Sprintf("stageMs%d", i))
+			lo, hi := 40, 250
+			if o.StageMs[1] > 0 {
+				lo, hi = o.StageMs[0], o.StageMs[1]
+			}
+			d := rapid.IntRange(lo, hi).Draw(t, fmt.Sprintf("stageMs%d", i))
 			parts = append(parts, fmt.Sprintf("%dms:%d", d, rapid.IntRange(0, per).Draw(t, fmt.Sprintf("target%d", i+1))))
 			own += ms(d)
 		}
@@ -133,7 +138,11 @@ func GenShape(t *rapid.T, o ShapeOpts) Shape {
 			ScenarioName, s.MaxDuration, s.Concurrency, s.MaxIterations)
 		var own time.Duration
 		for i := 0; i < n; i++ {
-			d := rapid.IntRange(100, 250).Draw(t, fmt.Sprintf("stageMs%d", i))
+			lo, hi := 100, 250
+			if o.StageMs[1] > 0 {
+				lo, hi = max(100, o.StageMs[0]), max(100, o.StageMs[1])
+			}
+			d := rapid.IntRange(lo, hi).Draw(t, fmt.Sprintf("stageMs%d", i))
 			own += ms(d)
 			switch rapid.SampledFrom([]string{"constant", "users", "staged", "ramp"}).Draw(t, fmt.Sprintf("stageMode%d", i)) {
 			case "constant":
